@@ -28,13 +28,15 @@ def main(ctx, replay=None):
     from cij.misc import evec_sort, evec_disp2eig, evec_load
     rng = numpy.random.default_rng(ctx.seed + 2020)
     records = []
-    for cfg in ("EvecSort2.cfg", "EvecSort3.cfg"):
-        res = must_ok(run_tlc("EvecSort", cfg, ctx.subdir("tlc_" + cfg[:9]), workers=1, timeout=600))
+    cfgs = ("EvecSort2.cfg", "EvecSort3.cfg") + (("EvecSort4.cfg",) if ctx.tier == "thorough" else ())      # n = 4: dominant class only
+    for cfg in cfgs:
+        res = must_ok(run_tlc("EvecSort", cfg, ctx.subdir("tlc_" + cfg[:9]), workers=(8 if cfg == "EvecSort4.cfg" else 1), timeout=1800))
         ctx.add_tlc(res)
         records += printed_values(res.out, "SORT")
     if len(records) < 256 + 19683:
         raise MachineryError(f"only {len(records)} matrices from the model")
-    eig = res.load("c20_eig.json")["files"]
+    import json as _json
+    eig = _json.loads((ctx.scratch / "tlc_EvecSort2" / "out" / "c20_eig.json").read_text())["files"]
     ctx.cov["exhaustive"] = True
     ctx.cov["rule"] = ("every 2x2 overlap matrix with entries 0..3 and every 3x3 with entries 0..2 (19 939 matrices, TLC) replayed through "
                        "evec_sort; constructed unitary bases n = 2..60 with permutation, phases, <= 5 % perturbation; displacement matrices "
